@@ -629,25 +629,6 @@ def run_case(case):
     return Outcome(nontrivial=nontrivial, labels=sorted(labels))
 
 
-def _shift_model(old_list, new_list, via):
-    """What the implementation is *known* to do with protected list elements (open finding list-element-survivor-shift):
-    newer elements outranked at their index are dropped and the rest move down; unprotected older elements are dropped and
-    the protected ones move down; what is left is merged index-wise.  Used only to attribute a violation to the finding."""
-    old2 = [(v, p) for v, p in old_list if p > 0]
-    if via == 'delmap':
-        # the enclosing !del mapping has pruned the older list already when the lists meet
-        new2 = [v for i, v in enumerate(new_list) if not i < len(old2)]
-    else:
-        new2 = [v for i, v in enumerate(new_list) if not (i < len(old_list) and old_list[i][1] > 0)]
-    out = []
-    for j in range(max(len(old2), len(new2))):
-        if j < len(old2):
-            out.append(old2[j][0])          # protected: wins against any newer element
-        else:
-            out.append(new2[j])
-    return out
-
-
 def _run_f(case, labels):
     import copy
     path, old_list, edits, form = case['path'], [v for v, _ in case['old_list']], case['edits'], case['form']
